@@ -14,5 +14,10 @@ ok, out = common.cargo_build_harness()
 print(out[-1500:])
 ok2, out2 = common.cargo_build_cli()
 print(out2[-500:])
-sys.exit(0 if ok and ok2 else 1)
+# the C16 binary links bindgen with its `experimental` feature (harness feature `va`): build it last so that
+# the binary left in the target directory is the one the check runs
+import c16
+ok3, out3 = c16._build_harness()
+print(out3[-300:])
+sys.exit(0 if ok and ok2 and ok3 else 1)
 PY
